@@ -180,12 +180,12 @@ func c17RunWire(c c17Case) Verdict {
 // withClient runs fn with a go-smtp client connected to the rig over memnet;
 // a watchdog aborts the connection if fn hangs. It returns false on expiry.
 func withClient(r *harness.Rig, lmtp bool, fn func(c *smtp.Client, w *harness.Wire)) bool {
-	w, _ := r.Dial()
+	nc, w := r.DialConn()
 	var cl *smtp.Client
 	if lmtp {
-		cl = smtp.NewClientLMTP(w.C)
+		cl = smtp.NewClientLMTP(nc)
 	} else {
-		cl = smtp.NewClient(w.C)
+		cl = smtp.NewClient(nc)
 	}
 	done := make(chan struct{})
 	go func() {
